@@ -208,8 +208,13 @@ pub fn worker_main<W: World>(args: &[String]) -> i32 {
             let reproduced = again.violation.as_ref().map(|x| x.class == viol.class).unwrap_or(false)
                 && again.log_hash == v.log_hash;
             if !reproduced {
-                violations.push(json!({"harness_error": "violation did not reproduce in the same process",
-                    "run_index": i, "run_seed": s, "class": viol.class, "detail": viol.detail, "world": w.to_json()}));
+                // The same world behaves differently the second time in this process: its behaviour depends on state
+                // that outlives a world (process-wide statics in the code under test). Exact replay then needs the
+                // whole history of this process: the parent confirms by re-running this worker's prefix.
+                violations.push(json!({"needs_history": true, "prefix": {"start": start, "stride": stride, "index": i},
+                    "run_index": i, "run_seed": s, "class": viol.class, "detail": viol.detail, "log_hash": format!("{:016x}", v.log_hash),
+                    "signature": w.signature(), "world": w.to_json()}));
+                resume_at = Some(k + 1);
                 break;
             }
             let (m, tries) = minimise(w, &viol.class, &mut st);
@@ -219,9 +224,9 @@ pub fn worker_main<W: World>(args: &[String]) -> i32 {
             violations.push(json!({"run_index": i, "run_seed": s, "class": viol.class, "detail": detail,
                 "original_detail": viol.detail, "log_hash": format!("{:016x}", fin.log_hash),
                 "minimisation_runs": tries, "signature": m.signature(), "world": m.to_json()}));
-            if violations.len() >= W::MAX_VIOLATIONS_PER_WORKER {
-                break;
-            }
+            // one violation per worker process (so that a worker's history up to a violation never contains
+            // minimisation runs); the parent does not respawn behind a violation
+            break;
         }
     }
     let out = json!({
@@ -235,6 +240,37 @@ pub fn worker_main<W: World>(args: &[String]) -> i32 {
     let so = std::io::stdout();
     let mut so = so.lock();
     let _ = writeln!(so, "{}", out);
+    0
+}
+
+/// `sim prefix <prop> --seed S --start a --stride k --index i --tier t`: re-run a worker's history from its process
+/// start up to run i and report run i (exit 1 + class/detail if it violates, 0 otherwise).
+pub fn prefix_main<W: World>(args: &[String]) -> i32 {
+    let get = |k: &str| -> Option<String> { args.iter().position(|a| a == k).and_then(|i| args.get(i + 1).cloned()) };
+    let seed: u64 = get("--seed").and_then(|s| s.parse().ok()).unwrap_or(DEFAULT_SEED);
+    let start: u64 = get("--start").and_then(|s| s.parse().ok()).unwrap_or(0);
+    let stride: u64 = get("--stride").and_then(|s| s.parse().ok()).unwrap_or(1).max(1);
+    let index: u64 = get("--index").and_then(|s| s.parse().ok()).unwrap_or(0);
+    let tier = if get("--tier").as_deref() == Some("thorough") { Tier::Thorough } else { Tier::Quick };
+    let mut st = Stats::default();
+    let mut i = start;
+    while i <= index {
+        let w = W::generate(mix(seed, i), i, tier);
+        let v = run_isolated(&w, &mut st);
+        if i == index {
+            return match v.violation {
+                Some(x) => {
+                    println!("PREFIX-VIOLATION class={} log_hash={:016x} detail={}", x.class, v.log_hash, x.detail);
+                    1
+                }
+                None => {
+                    println!("PREFIX-CLEAN log_hash={:016x}", v.log_hash);
+                    0
+                }
+            };
+        }
+        i += stride;
+    }
     0
 }
 
@@ -441,7 +477,19 @@ pub fn parent_main<W: World>(tier: Tier, plan: Plan, extra: Extra) -> i32 {
     }
 }
 
+/// Direct probe of the getrandom seam: a fresh thread's first `RandomState` must be answered by the simulator.
+fn hash_keys_owned() -> bool {
+    crate::heap::set_hash_seed(0x5EED);
+    let before = crate::heap::GETRANDOM_CALLS.load(std::sync::atomic::Ordering::SeqCst);
+    let _ = std::thread::spawn(|| std::hint::black_box(std::collections::hash_map::RandomState::new())).join();
+    crate::heap::GETRANDOM_CALLS.load(std::sync::atomic::Ordering::SeqCst) > before
+}
+
 fn parent_once<W: World>(tier: Tier, plan: &Plan, extra: &Extra) -> Option<i32> {
+    if !hash_keys_owned() {
+        println!("HARNESS-ERROR std hash keys are not owned by the simulator (std no longer asks through the getrandom symbol the simulator defines)");
+        return Some(2);
+    }
     // development knob (never set by a registered check): explore more or fewer runs than the tier's plan
     let plan = &Plan {
         runs: std::env::var("VERIF_RUNS").ok().and_then(|s| s.parse().ok()).unwrap_or(plan.runs),
@@ -547,7 +595,32 @@ fn parent_once<W: World>(tier: Tier, plan: &Plan, extra: &Extra) -> Option<i32> 
     let mut new_violations = 0u64;
     let mut harness_errors = 0u64;
     let _ = std::fs::create_dir_all(format!("{}/replays", verif_dir()));
-    for v in crash_violations.iter().chain(m.violations.iter()) {
+    let mut confirmed_history: Vec<Value> = Vec::new();
+    let mut m_violations: Vec<Value> = Vec::new();
+    for v in &m.violations {
+        if v["needs_history"] == true {
+            let exe = std::env::current_exe().expect("current_exe");
+            let p = &v["prefix"];
+            let out = Command::new(&exe).arg("prefix").arg(prop).arg("--seed").arg(seed.to_string())
+                .arg("--start").arg(p["start"].to_string()).arg("--stride").arg(p["stride"].to_string()).arg("--index").arg(p["index"].to_string())
+                .arg("--tier").arg(tier.name()).stdin(Stdio::null()).stderr(Stdio::null()).output();
+            let text = out.as_ref().map(|o| String::from_utf8_lossy(&o.stdout).to_string()).unwrap_or_default();
+            if let Some(l) = text.lines().find(|l| l.starts_with("PREFIX-VIOLATION")) {
+                let mut c = v.clone();
+                c["detail"] = json!(format!("{} [the outcome depends on state that outlives a call and a thread: replaying this world alone is not enough, the replay re-runs the worker's history; confirmed: {}]", v["detail"].as_str().unwrap_or(""), l.chars().take(200).collect::<String>()));
+                c["replay_kind"] = json!("worker_prefix");
+                c["verif_seed"] = json!(seed);
+                c["tier"] = json!(tier.name());
+                confirmed_history.push(c);
+            } else {
+                println!("HARNESS-ERROR a violation at run index {} did not reproduce in the same process nor when the worker's history was re-run: {}", v["run_index"], v["detail"]);
+                return Some(2);
+            }
+        } else {
+            m_violations.push(v.clone());
+        }
+    }
+    for v in crash_violations.iter().chain(confirmed_history.iter()).chain(m_violations.iter()) {
         if v.get("harness_error").is_some() {
             harness_errors += 1;
             println!("HARNESS-ERROR {}", v);
@@ -574,7 +647,9 @@ fn parent_once<W: World>(tier: Tier, plan: &Plan, extra: &Extra) -> Option<i32> 
         }
         let path = format!("{}/replays/{}-{}-{}.json", verif_dir(), prop, v["run_seed"], new_violations);
         let file = json!({"property": prop, "verif_seed": seed, "run_index": v["run_index"], "run_seed": v["run_seed"],
-            "class": v["class"], "detail": v["detail"], "log_hash": v["log_hash"], "world": v["world"]});
+            "class": v["class"], "detail": v["detail"], "log_hash": v["log_hash"], "world": v["world"],
+            "replay_kind": v.get("replay_kind").cloned().unwrap_or(json!("world")), "prefix": v.get("prefix").cloned().unwrap_or(Value::Null),
+            "tier": tier.name()});
         let _ = std::fs::write(&path, serde_json::to_string_pretty(&file).unwrap());
         println!("violation class={} detail={}", v["class"].as_str().unwrap_or(""), v["detail"].as_str().unwrap_or(""));
         println!("VIOLATION property={} replay={}", prop, path);
@@ -619,14 +694,6 @@ fn parent_once<W: World>(tier: Tier, plan: &Plan, extra: &Extra) -> Option<i32> 
     }
     println!("{}: {} runs, {} distinct states, {} new violations, {} known-finding lines, {:.1}s; evidence {}",
         prop, m.done, m.distinct.len(), new_violations, known_lines, wall, evp);
-    // every world runs on fresh threads and nearly every call creates a std hash set: if over a whole batch no key
-    // request reached the simulator, std no longer asks through the symbol the simulator defines
-    if let Some(0) = m.counters.get("fault_hash_keys_handed_to_fresh_threads") {
-        if m.done > 100 {
-            println!("HARNESS-ERROR std hash keys are not owned by the simulator (no getrandom request was answered)");
-            harness_errors += 1;
-        }
-    }
     for (k, n) in &m.counters {
         if k.starts_with("harness_") && *n > 0 {
             println!("HARNESS-ERROR {} = {}", k, n);
@@ -645,6 +712,19 @@ fn parent_once<W: World>(tier: Tier, plan: &Plan, extra: &Extra) -> Option<i32> 
 
 /// `sim replay <file>`: run exactly the recorded world in this fresh process.
 pub fn replay_main<W: World>(v: &Value) -> i32 {
+    if v["replay_kind"] == "worker_prefix" {
+        let p = &v["prefix"];
+        let args: Vec<String> = vec!["--seed".into(), v["verif_seed"].to_string(), "--start".into(), p["start"].to_string(),
+            "--stride".into(), p["stride"].to_string(), "--index".into(), p["index"].to_string(), "--tier".into(), v["tier"].as_str().unwrap_or("quick").to_string()];
+        println!("replaying the history of the worker process up to run index {} (the outcome depends on state that outlives a world)", p["index"]);
+        let code = prefix_main::<W>(&args);
+        if code == 1 {
+            println!("VIOLATION property={} replay=(this file)", W::PROP);
+        } else {
+            println!("no violation on this tree");
+        }
+        return code;
+    }
     let w = match W::from_json(&v["world"]) {
         Ok(w) => w,
         Err(e) => {
